@@ -8,4 +8,5 @@ for id in $(python3 -c "import json;print(' '.join(c['property_id'] for c in jso
   rc=$?
   echo "rc=$rc $(( $(date +%s)-s ))s $(echo "$out" | grep -E "^$id " | tail -1)"
   echo "$out" | grep -E "^(VIOLATION|KNOWN-FINDING|VACUITY|harness|worker)" | cut -c1-200 | head -5
+  if [ $rc -ne 0 ] && [ $rc -ne 1 ]; then echo "---- unexpected exit $rc; last output lines:"; echo "$out" | tail -15 | cut -c1-300; fi
 done
